@@ -54,6 +54,8 @@ impl<T: ?Sized> RwLock<T> {
         RwLockWriteGuard { l: self }
     }
     pub fn get_mut(&mut self) -> &mut T { self.data.get_mut() }
+    /// held in any mode (verification aid)
+    pub fn is_locked(&self) -> bool { self.writer.get() || self.readers.get() > 0 }
 }
 impl<T: Default> Default for RwLock<T> { fn default() -> Self { Self::new(T::default()) } }
 impl<T: ?Sized> fmt::Debug for RwLock<T> { fn fmt(&self, f: &mut fmt::Formatter<'_>) -> fmt::Result { f.write_str("RwLock") } }
